@@ -172,6 +172,16 @@ func (ex *Exec) evalIdent(e *ast.Ident, st *State) Value {
 
 func (ex *Exec) globalVar(o *types.Var, st *State) Value {
 	name := o.Pkg().Path() + "." + o.Name()
+	if ex.spec == 0 {
+		for _, ld := range lockDirs[o.Pkg().Path()] {
+			for _, g := range ld.Globals {
+				if g == o.Name() {
+					// lock discipline: guarded package-level state is only touched while the mutex is held
+					ex.check(st, ex.lockHeld(st, ld.Mutex), "lock:guarded-access", nil, o.Name()+" (guarded by "+ld.Mutex+")")
+				}
+			}
+		}
+	}
 	if _, ok := st.glob[name]; !ok {
 		// error sentinels: distinct non-nil constants
 		if isErrorType(o.Type()) {
@@ -605,8 +615,15 @@ func (ex *Exec) evalBinary(e *ast.BinaryExpr, st *State) Value {
 		n0 := len(sub.pc)
 		b := ex.eval(e.Y, sub).scalar()
 		if !sub.dead {
+			gg := g
+			if ex.spec > 0 {
+				// specification expressions: quantified conjuncts of the guard are dropped (the facts learned on the right are
+				// validity facts of memory reads and postconditions of pure specification calls; a quantifier in the
+				// antecedent of such a fact only obstructs the solvers)
+				gg = qfPart(g)
+			}
 			for _, f := range sub.pc[n0:] {
-				st.assume(mkImplies(g, f))
+				st.assume(mkImplies(gg, f))
 			}
 			st.alloc = mkIte(g, sub.alloc, st.alloc)
 		}
@@ -1141,6 +1158,13 @@ func (ex *Exec) evalCall(call *ast.CallExpr, st *State) []Value {
 		sig = isig
 	}
 	_ = recvExpr
+	if recv == nil && fn.Pkg() != nil {
+		for _, xd := range externDirs[ex.frame().pkg.Path()] {
+			if xd.Callee == fn.FullName() {
+				return ex.callExtern(xd, fn, sig, call, st)
+			}
+		}
+	}
 	if m := lookupModel(fn); m != nil {
 		args := ex.evalArgs(call, sig, st)
 		return m.call(ex, st, call, recv, args)
@@ -1269,4 +1293,52 @@ func (ex *Exec) evalArgs(call *ast.CallExpr, sig *types.Signature, st *State) []
 		}
 	}
 	return args
+}
+
+// callExtern: a call of an external function for which the package declares a stub contract (//@ extern).
+func (ex *Exec) callExtern(xd *ExternDir, fn *types.Func, sig *types.Signature, call *ast.CallExpr, st *State) []Value {
+	p := ex.frame().pkg
+	fi := ex.vc.byShort[p.Name()+"."+xd.Stub]
+	if fi == nil || fi.Con == nil || !fi.Con.Trusted {
+		unsupp("extern %s: stub %s needs a trusted contract", xd.Callee, xd.Stub)
+	}
+	if len(call.Args) < len(xd.Lead) {
+		unsupp("extern %s: too few arguments", xd.Callee)
+	}
+	for i, l := range xd.Lead {
+		if ex.src(call.Args[i]) != l {
+			unsupp("extern %s at %s: argument %d is %s, the stub contract is specialised to %s", xd.Callee, ex.pos(call), i, ex.src(call.Args[i]), l)
+		}
+	}
+	ssig := fi.Obj.Type().(*types.Signature)
+	rest := call.Args[len(xd.Lead):]
+	if ssig.Params().Len() != len(rest) {
+		unsupp("extern %s: stub %s takes %d parameters, call has %d remaining arguments", xd.Callee, xd.Stub, ssig.Params().Len(), len(rest))
+	}
+	var args []Value
+	for i, a := range rest {
+		args = append(args, ex.convertTo(ex.eval(a, st), ssig.Params().At(i).Type(), st))
+	}
+	ex.note("external function summarised by an assumed stub contract: " + xd.Callee + " as " + fi.Short)
+	res := ex.callModular(fi, nil, args, st, call)
+	for i := range res {
+		if i < sig.Results().Len() {
+			res[i] = ex.convertTo(res[i], sig.Results().At(i).Type(), st)
+		}
+	}
+	return res
+}
+
+func qfPart(g *Term) *Term {
+	if _, _, _, q := featureScan([]*Term{g}); !q {
+		return g
+	}
+	if g.Op == "and" {
+		var keep []*Term
+		for _, a := range g.Args {
+			keep = append(keep, qfPart(a))
+		}
+		return mkAnd(keep...)
+	}
+	return tTrue
 }
